@@ -193,7 +193,7 @@ fn case_random<F: Family>(input: &Input, ctx: &mut Ctx) -> CaseResult {
         let p = c01::sized_publish::<F>(2_097_152 + t.pick(4096));
         (F::encode(&p).map(|b| b.as_ref().to_vec()).unwrap_or_default(), "valid-4-byte-header")
     } else {
-        let cfg = if t.chance(1, 4) { GenCfg::MEDIUM } else { GenCfg::SMALL };
+        let cfg = crate::gen::cfg_mix(&mut t, ctx.thorough);
         corpus::gen_input::<F>(&mut t, &cfg)
     };
     // declared lengths far beyond the input would make the 1-byte schedules pointless but are fine
